@@ -10,6 +10,7 @@ import (
 	"strings"
 	"sync"
 	"syscall"
+	"time"
 
 	"verif/harness/internal/gen"
 	"verif/harness/internal/run"
@@ -73,7 +74,7 @@ var c19GoodArgs = map[string][]string{
 	"test/1": {`"a"`, `"^a.*c$"`}, "test/2": {`"A"; "i"`, `"a"; "gx"`}, "match/1": {`"a"`, `"(?<l>[a-z])"`}, "match/2": {`"a"; "g"`, `"B"; "ig"`},
 	"capture/1": {`"(?<x>[a-z]+)"`}, "capture/2": {`"(?<x>[a-z])"; "g"`}, "scan/1": {`"[a-c]"`}, "scan/2": {`"[A-C]"; "i"`}, "split/1": {`","`, `"b"`}, "split/2": {`"[,b]"; "g"`},
 	"splits/1": {`","`}, "splits/2": {`"B"; "i"`}, "sub/2": {`"a"; "X"`, `"(?<x>a)"; "<\(.x)>"`}, "sub/3": {`"a"; "X"; "g"`}, "gsub/2": {`"[ab]"; "-"`}, "gsub/3": {`"A"; "z"; "i"`},
-	"strftime/1": {`"%Y-%m-%dT%H:%M:%SZ"`, `"%j %U %Z %e"`}, "strptime/1": {`"%Y-%m-%dT%H:%M:%SZ"`, `"%Y-%m-%dT%H:%M:%S%z"`}, "mktime/0": {""}, "gmtime/0": {""}, "todate/0": {""}, "fromdate/0": {""},
+	"strftime/1": {`"%Y-%m-%dT%H:%M:%SZ"`, `"%j %U %Z %e"`, `"%z %s %Z %c"`, `"%H:%M %z"`}, "strptime/1": {`"%Y-%m-%dT%H:%M:%SZ"`, `"%Y-%m-%dT%H:%M:%S%z"`}, "mktime/0": {""}, "gmtime/0": {""}, "todate/0": {""}, "fromdate/0": {""},
 	"getpath/1": {`["a"]`, `["a","b"]`, "[0]"}, "setpath/2": {`["a"]; 1`, "[0]; .", `[]; 2`}, "delpaths/1": {`[["a"]]`, "[[0]]"}, "paths/1": {"type == \"number\"", "true"}, "pick/1": {".a", ".[0]", ".a.b"},
 	"has/1": {`"a"`, "0"}, "index/1": {`"a"`, "1", `"b"`}, "indices/1": {`"a"`, "1", "[1]"}, "ltrimstr/1": {`"a"`}, "rtrimstr/1": {`"c"`}, "trimstr/1": {`"a"`}, "startswith/1": {`"a"`}, "endswith/1": {`"c"`},
 	"join/1": {`","`}, "flatten/1": {"1", "0"}, "range/1": {"3", "(1,2)"}, "range/2": {"1; 4"}, "range/3": {"0; 10; 3", "5; 0; -2"}, "limit/2": {"2; .[]?", "1; (1,2,3)"}, "skip/2": {"1; .[]?"}, "nth/2": {"1; .[]?"},
@@ -204,11 +205,16 @@ type c19AmbState struct {
 	Dir   string            // working directory, relative to the temp root
 	Stdin string            // content of file descriptor 0
 	Files map[string]string // planted files, relative to the temp root
+	Zone  int               // the process' local time zone (time.Local), minutes east of UTC
 }
 
 func c19GenState(r *rand.Rand, tag string) c19AmbState {
 	m := c19Mark + tag + strconv.Itoa(r.IntN(1e6))
 	st := c19AmbState{Dir: "cwd" + tag, Stdin: fmt.Sprintf("{\"stdin\":%q}\n[1,%q]\n%q\n", m, m, m), Files: map[string]string{}}
+	st.Zone = []int{0, 540, -300, 330, -570, 765, -720, 60}[r.IntN(8)]
+	if tag == "B" || tag == "b" {
+		st.Zone = []int{-420, 345, 840, -210, 120, 0, 570, -60}[r.IntN(8)]
+	}
 	modsrc := func(n string) string {
 		return fmt.Sprintf("def ambient: %q; def ambient_cwd: %q; def %s: %q;\n", m+n, m+n, n, m+n)
 	}
@@ -289,6 +295,9 @@ func c19WithAmbient(st c19AmbState, f func(root string)) (consumed int64, err er
 		return 0, err
 	}
 	oldenv := os.Environ()
+	oldLocal := time.Local
+	time.Local = time.FixedZone(fmt.Sprintf("Z%+d", st.Zone), st.Zone*60)
+	defer func() { time.Local = oldLocal }()
 	saved0, err := syscall.Dup(0)
 	if err != nil {
 		saved0 = -1
@@ -518,7 +527,7 @@ func init() {
 		Assumptions: []string{
 			"the library reaches ambient state only through the Go standard library's process-wide facilities (os.Getenv/Environ, working directory, file descriptors, files, clock), so switching them in-process between two runs is equivalent to two child processes; the strace session covers anything else",
 			"a worker runs one case at a time, so mutating the process environment / cwd / fd 0 inside a case is safe",
-			"TZ and ZONEINFO are not varied (time-zone dependent builtins are exempt by the statement and Go caches time.Local per process)",
+			"the local time zone is varied by replacing time.Local (Go caches the zone per process; TZ/ZONEINFO themselves are ordinary environment variables of the generated states); the builtins the statement exempts (now, localtime, strflocaltime, strptime with %Z) are left out",
 			"strace -f sees every system call of every thread of the helper (checked per run by a control session with planted accesses)",
 			"callback behaviours copy their argument slice (the interpreter reuses it between calls)",
 		},
